@@ -278,6 +278,66 @@ fn cmd_lru(len: usize) {
     println!("{{\"cmd\":\"lru\",\"bound\":\"all histories of length <= {len} over get/put on keys 0..4, capacities 0..=4\",\"evaluated\":{},\"disagreements\":[{}]}}", evaluated, bad.join(","));
 }
 
+// C21 Eb: API -> content stream -> real parser. (1) show-text operands over a small alphabet incl. backslash, parens,
+// CR/LF and non-ASCII; (2) every f64-taking graphics setter with NaN / inf / huge values: the stream must parse strictly.
+fn page_content_bytes(page: oxidize_pdf::Page) -> Option<Vec<u8>> {
+    let mut doc = oxidize_pdf::Document::new();
+    doc.set_compress(false);
+    doc.add_page(page);
+    let bytes = doc.to_bytes().ok()?;
+    let reader = oxidize_pdf::parser::PdfReader::new(std::io::Cursor::new(bytes)).ok()?;
+    let document = reader.into_document();
+    let parsed_page = document.get_page(0).ok()?;
+    Some(document.get_page_content_streams(&parsed_page).ok()?.concat())
+}
+fn cmd_content(max_len: usize) {
+    use oxidize_pdf::parser::content::{ContentOperation, ContentParser};
+    use oxidize_pdf::text::Font;
+    let mut evaluated = 0u64; let mut bad: Vec<String> = vec![];
+    let alphabet: Vec<char> = vec!['A', '\\', '(', ')', '\r', '\n', '\u{e9}', '\u{20ac}', ' ', '1', '0', 't'];
+    let mut texts: Vec<String> = vec![];
+    fn rec(a: &[char], max: usize, cur: &mut String, out: &mut Vec<String>) { if !cur.is_empty() { out.push(cur.clone()); } if cur.chars().count() == max { return; } for &c in a { cur.push(c); rec(a, max, cur, out); cur.pop(); } }
+    rec(&alphabet, max_len, &mut String::new(), &mut texts);
+    for t in ["C:\\temp\\new", "a\\101b", "trailing\\", "x\\\\y", "((", "))", "\\)"] { texts.push(t.to_string()); }
+    for text in &texts {
+        evaluated += 1;
+        let want = match TextEncoding::WinAnsiEncoding.encode_strict(text) { Ok(w) => w, Err(_) => continue };
+        let r = panic::catch_unwind(|| {
+            let mut page = oxidize_pdf::Page::a4();
+            page.text().set_font(Font::Helvetica, 12.0).at(72.0, 700.0).write(text).ok()?;
+            let content = page_content_bytes(page)?;
+            let ops = ContentParser::parse_strict(&content).ok()?;
+            Some(ops.into_iter().filter_map(|op| match op { ContentOperation::ShowText(b) => Some(b), _ => None }).collect::<Vec<_>>())
+        });
+        let ok = matches!(&r, Ok(Some(v)) if v.len() == 1 && v[0] == want);
+        if !ok && bad.len() < 6 { bad.push(format!("{{\"what\":\"show text\",\"text\":{},\"want\":{:?},\"got\":{}}}", js(text), want, js(&format!("{:?}", r.map_err(|_| "PANIC"))))); }
+    }
+    let specials = [f64::NAN, f64::INFINITY, f64::NEG_INFINITY, 1e308, -0.0, 0.5];
+    type Setter = (&'static str, fn(&mut oxidize_pdf::graphics::GraphicsContext, f64));
+    let setters: Vec<Setter> = vec![
+        ("move_to", |g, v| { g.move_to(v, 1.0); }), ("line_to", |g, v| { g.line_to(1.0, v); }),
+        ("curve_to", |g, v| { g.curve_to(v, 1.0, 2.0, v, 3.0, 4.0); }), ("rect", |g, v| { g.rect(1.0, 2.0, v, 3.0); }),
+        ("circle", |g, v| { g.circle(1.0, 2.0, v); }), ("set_line_width", |g, v| { g.set_line_width(v); }),
+        ("set_miter_limit", |g, v| { g.set_miter_limit(v); }), ("set_flatness", |g, v| { g.set_flatness(v); }),
+        ("translate", |g, v| { g.translate(v, 1.0); }), ("scale", |g, v| { g.scale(1.0, v); }), ("rotate", |g, v| { g.rotate(v); }),
+        ("transform", |g, v| { g.transform(1.0, v, 0.0, 1.0, v, 0.0); }), ("rectangle", |g, v| { g.rectangle(v, 0.0, 1.0, v); }),
+        ("set_word_spacing", |g, v| { g.set_word_spacing(v); }), ("set_character_spacing", |g, v| { g.set_character_spacing(v); }),
+        ("set_opacity", |g, v| { g.set_opacity(v); }),
+    ];
+    for (name, f) in &setters { for v in specials {
+        evaluated += 1;
+        let r = panic::catch_unwind(|| {
+            let mut page = oxidize_pdf::Page::a4();
+            { let g = page.graphics(); g.move_to(0.0, 0.0); f(g, v); g.line_to(5.0, 5.0); g.stroke(); }
+            let content = page_content_bytes(page)?;
+            Some((ContentParser::parse_strict(&content).is_ok(), String::from_utf8_lossy(&content).to_string()))
+        });
+        let ok = matches!(&r, Ok(Some((true, _))));
+        if !ok && bad.len() < 6 { bad.push(format!("{{\"what\":\"graphics operand\",\"setter\":\"{name}\",\"value\":\"{v}\",\"got\":{}}}", js(&format!("{:?}", r.map_err(|_| "PANIC"))))); }
+    } }
+    println!("{{\"cmd\":\"content\",\"bound\":\"show-text strings of length <= {max_len} over a 12-character alphabet plus 7 fixed strings; 16 f64 setters x 6 special values\",\"evaluated\":{},\"disagreements\":[{}]}}", evaluated, bad.join(","));
+}
+
 fn main() {
     let args: Vec<String> = std::env::args().collect();
     panic::set_hook(Box::new(|_| {}));
@@ -287,6 +347,7 @@ fn main() {
         Some("a85hex") => cmd_a85hex(args.get(2).and_then(|s| s.parse().ok()).unwrap_or(5)),
         Some("a85hex-roundtrip") => cmd_a85hex_roundtrip(args.get(2).and_then(|s| s.parse().ok()).unwrap_or(4)),
         Some("fmt") => cmd_fmt(),
+        Some("content") => cmd_content(args.get(2).and_then(|s| s.parse().ok()).unwrap_or(2)),
         Some("xrefstm") => {
             // xrefstm <w0> <w1> <w2> <first> <count> <datalen>: run XRefStream::parse + to_xref_entries on a synthetic stream dictionary
             use oxidize_pdf::parser::objects::PdfArray;
